@@ -159,6 +159,40 @@ def cases(r, quick):
     return out
 
 
+def escalate(chk):
+    """the entropy census (or another obligation) broke and the paired runs found nothing: many more paired runs - every optimizer on
+    several scenarios, the surrogate optimizers with candidate subsampling forced on (`sampling={"random": small}` on spaces that are
+    larger), populations larger than the start-up list, constraints that force the random fallbacks"""
+    r = C.rng("C07-escalate")
+    fails, n = [], 0
+    specs = []
+    for name in gen.ALL_OPTIMIZERS:
+        for _ in range(3 if name in gen.SMBO else 5):
+            sp = bkgen.scenario(r, name, constraint_p=0.5)
+            sp["n_iter"] = 12 if name in gen.SMBO else 30
+            specs.append(sp)
+        if name in gen.SMBO and name != "DirectAlgorithm":
+            for _ in range(4):
+                sp = bkgen.scenario(r, name, constraint_p=0.2, sizes=[5, 10])
+                sp["opt_kwargs"]["sampling"] = {"random": r.choice([3, 5, 10])}
+                sp["n_iter"] = 14
+                specs.append(sp)
+    for spec in specs:
+        tag = D.opt_tag(spec)
+        s = r.randrange(0, 2 ** 31 - 3)
+        try:
+            a, _ = run_once(spec, s, 0)
+            b, _ = run_once(spec, s, r.choice([1, 2, 5]))
+        except C.Infra:
+            raise
+        except Exception:  # noqa
+            continue
+        n += 2
+        if not same(a, b):
+            fails.append(dict(signature=f"C07|{tag}|same-seed-different-run", detail=f"random_state={s}: two runs under different ambient generator states differ", case=dict(spec, random_state=s)))
+    chk.monitor("ESCALATED search (an obligation broke): many more paired runs, candidate subsampling of the surrogate optimizers forced on", n, fails)
+
+
 def run():
     chk = Check("C07", props_modules=["GFO.Props.C07", "GFO.Gen.RngGenCheck"], gen_steps=(translators.gen_entropy, translators.gen_rng))
     chk.build_and_audit()
@@ -253,5 +287,7 @@ def run():
         chk.monitor("three optimizers built one after the other in one process with identical (default / shared) arguments reproduce each other", n2, fails2, keys2)
     chk.assumptions.append("the generators (Mersenne Twister, numpy legacy RandomState, sklearn drawing from numpy's singleton) are deterministic functions of their state; "
                            "the ast census (harness/translators.py:gen_entropy) can miss dynamically constructed entropy (getattr/eval) - none exists today")
+    if chk.needs_escalation():
+        chk.stage("escalated search", escalate, chk)
     scen.shutdown_manager()
     return chk.finish()
